@@ -23,11 +23,14 @@ P = {
  "C05": ("Reset obligations on every DecodeFromBytes: each receiver field that some path writes is assigned on every successful return (ghost write flags), so no state of an earlier packet survives; refutations are replayed on the real code by decoding a witness packet and then the model packet into the same object and comparing with a fresh object (A/B replay). Container lookups must not panic for any layer type.",
          "The reset obligation checks assignment, not that the assigned value is independent of the old contents (x = x[:0] reuse is accepted); fixed-size array fields are not tracked; equality of field values between parser and NewPacket follows from both running the same DecodeFromBytes (C03 typestate).",
          "contract-based deductive verification (govc: reset obligations via ghost write flags, A/B replay of refutations via go test -overlay, z3/cvc5)"),
+ "C06": ("Byte-layout contracts, over the abstract view of the SerializeBuffer interface contract, on UDP.SerializeTo and ICMPv4.SerializeTo (header bytes equal the fields, payload behind the header untouched, FixLengths length arithmetic) and on UDP.DecodeFromBytes (fields read back from exactly those offsets, payload cut at the length field), and the UDP round trip proved as ghost code over the two contracts: serialize with FixLengths over any payload of at most 65527 bytes, decode, get the same ports, length, checksum and payload length with no error.",
+         "Only the layers listed under functions_under_contract in the evidence are covered (UDP round trip, ICMPv4 layout); the other ~85 serialisable layers, option lists, DNS names and the stacking helper are not claimed by this check.",
+         "contract-based deductive verification (govc: byte-layout contracts on SerializeTo/DecodeFromBytes over the SerializeBuffer view, round-trip lemma as ghost code, z3/cvc5)"),
  "C07": ("No-panic obligations (index, slice, nil, division, make, callee preconditions incl. PrependBytes(n>=0)) for every SerializableLayer.SerializeTo and its in-module callees under the SerializeBuffer interface contract with arbitrary public field values, plus the definite-initialisation ghost: every byte of a window obtained from PrependBytes/AppendBytes is written before a nil-error return (output independent of what the buffer held before).",
          "Many obligations of the larger serializers (option lists, linked routing entries, DNS name encoding) are in the unproved ledger and not claimed.",
          "contract-based deductive verification (govc: no-panic VCs of every SerializeTo under the SerializeBuffer interface contract + definite-initialisation ghost, z3/cvc5, replay via go test -overlay)"),
  "C08": ("Unbounded proof of the RFC 1071 kernel: ComputeChecksum and FoldChecksum equal the mathematical spec functions tot16 / oc32 / rfc for every input and every accumulator value, with loop invariants and termination (64-bit accumulator with end-around carry fold).",
-         "Emission sites and VerifyChecksum methods in package layers are not under functional contracts yet (their no-panic/frame obligations are in C01/C02/C07).",
+         "Also under contract: the IPv4 pseudo-header sum, tcpipchecksum.computeChecksum (accumulator = RFC 1071 sum of pseudo-header with the network layer's current addresses, protocol, length and of header plus payload), and the emission sites of ICMPv4, UDP and TCP (the sum is taken over the whole message with a zeroed checksum field; UDP never emits 0). VerifyChecksum methods, ICMPv6, GRE and the IPv4 header checksum are not under functional contracts; the bit-flip lemma is not proved.",
          TECH),
  "C09": ("Kernel only: Sequence.Difference/Add of package reassembly equal the true modular distance sdiff32 inside the +-2^30 window for all 2^64 pairs, antisymmetry / zero / shift lemmas, addPending continuity arithmetic, checkOverlap copy windows. The whole-history delivery theorem is NOT claimed.",
          "Only the arithmetic kernel is decided; see not_covered in the evidence.", TECH),
@@ -56,11 +59,10 @@ P = {
          "contract-based deductive verification (govc: zero-annotation safety/termination VCs over go/ssa with Houdini-inferred loop invariants, z3/cvc5, counterexample lifting + replay via go test -overlay)"),
 }
 NA = {
- "C06": "no check registered: the serialize/decode round trip needs byte-layout contracts on both SerializeTo and DecodeFromBytes of each layer plus lemmas over them (DESIGN.md section 6 C06); these contracts are not written, and the no-panic / initialisation / reset halves are decided under C07 and C05",
  "C12": "quantifies over goroutine interleavings / channel rendezvous: outside what per-function contracts under sequential semantics can express or decide (DESIGN.md section 7)",
  "C20": "quantifies over goroutine interleavings / channel rendezvous: outside what per-function contracts under sequential semantics can express or decide (DESIGN.md section 7)",
 }
-order = ["C08", "C17", "C18", "C09", "C10", "C13", "C16", "C11", "C14", "C03", "C05", "C04", "C15", "C19", "C07", "C01", "C02"]
+order = ["C08", "C17", "C18", "C09", "C10", "C13", "C16", "C11", "C14", "C06", "C03", "C05", "C04", "C15", "C19", "C07", "C01", "C02"]
 repo_hooks = subprocess.run("git -C /repo log --format=%h --grep='^verif:'", shell=True, capture_output=True, text=True).stdout.split()
 m = {
  "version": 1,
